@@ -1519,7 +1519,8 @@ func (self *Aof) LoadAofFile(filename string, lock *AofLock, expriedTime int64, 
 			lock.data = nil
 		}
 
-		if lock.ExpriedFlag&protocol.EXPRIED_FLAG_MILLISECOND_TIME != 0 {
+		if lock.CommandType == protocol.COMMAND_UNLOCK {
+		} else if lock.ExpriedFlag&protocol.EXPRIED_FLAG_MILLISECOND_TIME != 0 {
 			if lock.ExpriedFlag&protocol.EXPRIED_FLAG_UNLIMITED_EXPRIED_TIME == 0 && lock.ExpriedTime > 0 && int64(lock.CommandTime+uint64(lock.ExpriedTime)/1000) <= expriedTime {
 				continue
 			}
